@@ -71,9 +71,11 @@ pub fn draw_foreign(rng: &mut Rng, big: bool) -> ForeignSpec {
             contents.push(c);
         }
     }
-    // rarely one very large tile (reads of more than 1 MiB)
-    if !big && rng.chance(1) {
+    // now and then one very large tile (reads of more than 1 MiB) or one above 64 KiB
+    if !big && rng.chance(3) {
         contents.push(Cont { k: 1, seed: rng.below(256) as u32, len: (1 << 20) + 1 + rng.below(1_300_000) as u32 });
+    } else if !big && rng.chance(3) {
+        contents.push(Cont { k: 2, seed: rng.below(256) as u32, len: 65_537 + rng.below(300_000) as u32 });
     }
     // another writer need not deduplicate: the same bytes may be stored at several offsets
     if rng.chance(25) {
